@@ -214,8 +214,18 @@ class Source:
         return None
 
 
+class _NeedClassBody(Exception):
+    """the value of this class attribute is only known after running the statements of the class body"""
+
+
+class DictTable(list):
+    """a class-level dict {0: v0, 1: v1, …, n-1: v(n-1)} as the list of its values: lookups raise KeyError outside
+    0 … n-1 (no negative-index wrap-around)"""
+
+
 class ConstEval:
-    """Evaluate constant-defining expressions from the source. Values: int, bool, list[int]."""
+    """Evaluate constant-defining expressions from the source. Values: int, bool, list[int] (DictTable for a dict with
+    the keys 0 … n-1); strings only as intermediate values (base64 literals)."""
 
     def __init__(self, src: Source):
         self.src = src
@@ -228,7 +238,24 @@ class ConstEval:
         if isinstance(e, ast.Constant):
             if isinstance(e.value, bool) or isinstance(e.value, int):
                 return e.value
+            if isinstance(e.value, str):
+                return e.value  # only ever consumed by base64.b64decode below
             raise ValueError("non-integer constant")
+        if isinstance(e, ast.BinOp) and isinstance(e.op, ast.Add):
+            a, b = ev(e.left), ev(e.right)
+            if isinstance(a, str) and isinstance(b, str):
+                return a + b
+        if isinstance(e, ast.Call) and ast.unparse(e.func) == "base64.b64decode" and len(e.args) == 1 and not e.keywords:
+            # a bytes table written as a base64 literal: the list of its byte values (stdlib decoding of a literal)
+            import base64 as _b64
+            v = ev(e.args[0])
+            if not isinstance(v, str):
+                raise ValueError("base64.b64decode of a non-literal")
+            return list(_b64.b64decode(v))
+        if isinstance(e, ast.Dict):
+            if cls is None:
+                raise ValueError("dict outside a class body")
+            raise _NeedClassBody()
         if isinstance(e, ast.UnaryOp):
             v = ev(e.operand)
             if isinstance(v, bool) or not isinstance(v, int):
@@ -303,7 +330,7 @@ class ConstEval:
             if cls is not None:
                 m = self.src.class_member(rel, cls, e.id)
                 if m and m[0] == "assign":
-                    return self.eval(m[3], m[1], m[2], None, depth + 1)
+                    return self.member_value(m, e.id, depth)
             g = self.src.lookup_global(rel, e.id, extra_imports)
             if g and g[0] == "assign":
                 return self.eval(g[2], g[1], None, None, depth + 1)
@@ -318,12 +345,61 @@ class ConstEval:
                 orel, ocls = self.private_owner  # `self.__X` inside class A means `_A__X`
             m = self.src.class_member(orel, ocls, e.attr)
             if m and m[0] == "assign":
-                return self.eval(m[3], m[1], m[2], None, depth + 1)
+                return self.member_value(m, e.attr, depth)
             raise ValueError(f"{ast.unparse(e)} is not a class-level constant")
         raise ValueError(f"not a constant expression: {type(e).__name__}")
 
+    def member_value(self, m, name: str, depth: int):
+        """value of the class attribute found by Source.class_member: its defining expression, or — for a dict that the
+        class body fills afterwards (`_ctor(month_lengths=__MONTH_LENGTHS, …)` at class level) — what the statements of
+        the class body leave in it."""
+        try:
+            return self.eval(m[3], m[1], m[2], None, depth + 1)
+        except _NeedClassBody:
+            env = self.class_body_env(m[1], m[2])
+            v = env.get(name)
+            if isinstance(v, dict):
+                n = len(v)
+                if n == 0 or sorted(v) != list(range(n)) or not all(isinstance(x, int) and not isinstance(x, bool) for x in v.values()):
+                    raise ValueError(f"{name}: a dict whose keys are not 0 … n-1 / values not ints")
+                return DictTable(v[i] for i in range(n))
+            raise ValueError(f"{name} is not a table after the class body has run")
+
+    def class_body_env(self, rel: str, cls: ast.ClassDef) -> dict:
+        """Run the top-level statements of a class body (constant assignments, function definitions, calls of those
+        functions, `del`) with the small interpreter below; attributes whose value it cannot compute are left out."""
+        key = (rel, cls.name)
+        cache = self.__dict__.setdefault("_class_envs", {})
+        if key in cache:
+            return cache[key]
+        env: dict = {}
+        state = {"steps": 0, "yielded": None}
+        for st in cls.body:
+            try:
+                if isinstance(st, ast.FunctionDef):
+                    env[st.name] = st
+                elif isinstance(st, (ast.Assign, ast.AnnAssign)) and getattr(st, "value", None) is not None:
+                    tgt = st.targets[0] if isinstance(st, ast.Assign) else st.target
+                    if isinstance(tgt, ast.Name):
+                        env.pop(tgt.id, None)
+                        env[tgt.id] = self._ev(st.value, env, rel, None, 0, state)
+                elif isinstance(st, ast.Expr) and isinstance(st.value, ast.Call) and isinstance(st.value.func, ast.Name) \
+                        and isinstance(env.get(st.value.func.id), ast.FunctionDef):
+                    fn = env[st.value.func.id]
+                    args = [self._ev(a, env, rel, None, 0, state) for a in st.value.args]
+                    kw = {k.arg: self._ev(k.value, env, rel, None, 0, state) for k in st.value.keywords}
+                    self.run_function(fn, args, rel, None, 1, kw)
+                elif isinstance(st, ast.Delete):
+                    for t in st.targets:
+                        if isinstance(t, ast.Name):
+                            env.pop(t.id, None)
+            except (ValueError, KeyError, TypeError, ZeroDivisionError, _NeedClassBody):
+                continue
+        cache[key] = env
+        return env
+
     # -- a small interpreter for the functions that BUILD class-level tables (for/range/append/yield) ----------
-    def run_function(self, fn: ast.FunctionDef, args: list, rel: str, cls, depth: int):
+    def run_function(self, fn: ast.FunctionDef, args: list, rel: str, cls, depth: int, kwargs: dict | None = None):
         a = fn.args
         params = [x.arg for x in a.posonlyargs + a.args]
         env = {}
@@ -331,9 +407,13 @@ class ConstEval:
             env.update(zip(params, args[:len(params)]))
             env[a.vararg.arg] = list(args[len(params):])
         else:
-            if len(args) != len(params):
-                raise ValueError(f"call of {fn.name}: arity")
             env.update(zip(params, args))
+            for k, v in (kwargs or {}).items():
+                if k not in params or k in env:
+                    raise ValueError(f"call of {fn.name}: keyword {k}")
+                env[k] = v
+            if len(env) != len(params) or len(args) > len(params):
+                raise ValueError(f"call of {fn.name}: arity")
         state = {"steps": 0, "yielded": None}
         is_gen = any(isinstance(n, (ast.Yield, ast.YieldFrom)) for n in ast.walk(fn))
         if is_gen:
@@ -342,7 +422,7 @@ class ConstEval:
         if is_gen:
             return state["yielded"]
         if r is None or r[0] != "return":
-            raise ValueError(f"{fn.name} returns nothing")
+            return None  # a procedure (it mutates the tables it was given)
         return r[1]
 
     def _exec(self, body, env, rel, cls, depth, state):
@@ -358,6 +438,14 @@ class ConstEval:
                 if isinstance(st, ast.AnnAssign) and st.value is None:
                     continue
                 tgt = st.targets[0] if isinstance(st, ast.Assign) else st.target
+                if isinstance(tgt, ast.Subscript) and isinstance(st, ast.Assign) and len(st.targets) == 1 and isinstance(tgt.value, ast.Name):
+                    box = env.get(tgt.value.id)
+                    k = self._ev(tgt.slice, env, rel, cls, depth, state)
+                    v = self._ev(st.value, env, rel, cls, depth, state)
+                    if isinstance(box, dict) and isinstance(k, int) and not isinstance(k, bool):
+                        box[k] = v
+                        continue
+                    raise ValueError("table-building function: subscript store into something that is not a dict")
                 if isinstance(st, ast.Assign) and len(st.targets) != 1 or not isinstance(tgt, ast.Name):
                     raise ValueError("table-building function: assignment target")
                 v = self._ev(st.value, env, rel, cls, depth, state)
@@ -400,6 +488,8 @@ class ConstEval:
 
     @staticmethod
     def _binop(op, a, b):
+        if isinstance(op, ast.Div) and isinstance(a, int) and isinstance(b, int) and not isinstance(a, bool) and not isinstance(b, bool) and b != 0:
+            return a / b  # CPython's own true division; only int(...) of it is accepted further on
         if isinstance(a, bool) or isinstance(b, bool) or not isinstance(a, int) or not isinstance(b, int):
             raise ValueError("table-building function: operator on non-ints")
         table = {ast.Add: lambda: a + b, ast.Sub: lambda: a - b, ast.Mult: lambda: a * b, ast.FloorDiv: lambda: a // b,
@@ -416,7 +506,10 @@ class ConstEval:
         if isinstance(e, ast.Name) and e.id in env:
             return env[e.id]
         if isinstance(e, ast.BinOp):
-            return self._binop(e.op, ev(e.left), ev(e.right))
+            a, b = ev(e.left), ev(e.right)
+            if isinstance(e.op, ast.Add) and isinstance(a, str) and isinstance(b, str):
+                return a + b
+            return self._binop(e.op, a, b)
         if isinstance(e, ast.IfExp):
             return ev(e.body) if ev(e.test) else ev(e.orelse)
         if isinstance(e, ast.Compare) and len(e.ops) == 1:
@@ -431,7 +524,29 @@ class ConstEval:
             l, i = ev(e.value), ev(e.slice)
             if isinstance(l, list) and isinstance(i, int) and -len(l) <= i < len(l):
                 return l[i]
+            if isinstance(l, dict) and isinstance(i, int) and i in l:
+                return l[i]
             raise ValueError("table-building function: subscript")
+        if isinstance(e, ast.Dict) and not e.keys:
+            return {}
+        if isinstance(e, ast.Call) and ast.unparse(e.func) == "base64.b64decode" and len(e.args) == 1 and not e.keywords:
+            import base64 as _b64
+            v = ev(e.args[0])
+            if not isinstance(v, str):
+                raise ValueError("base64.b64decode of a non-string")
+            return list(_b64.b64decode(v))
+        if isinstance(e, ast.Constant) and isinstance(e.value, str):
+            return e.value
+        if isinstance(e, ast.Call) and isinstance(e.func, ast.Name) and e.func.id == "int" and len(e.args) == 1 and not e.keywords:
+            v = ev(e.args[0])
+            if isinstance(v, (int, float)) and not isinstance(v, bool):
+                return int(v)
+            raise ValueError("table-building function: int() of a non-number")
+        if isinstance(e, ast.Call) and isinstance(e.func, ast.Name) and e.func.id == "len" and len(e.args) == 1 and not e.keywords:
+            v = ev(e.args[0])
+            if isinstance(v, (list, dict)):
+                return len(v)
+            raise ValueError("table-building function: len()")
         if isinstance(e, ast.List):
             out = []
             for x in e.elts:
@@ -515,6 +630,10 @@ class Target:
         self.extra_params = [(p[0], parse_type(p[1])) for p in d.get("extra_params", [])]
         # the function returns `lambda <these>: expr`; the generated definition is the uncurried f(args)(lambda args)
         self.lambda_params = [(p[0], parse_type(p[1])) for p in d.get("lambda_params", [])]
+        # a dict attribute the function reads ("mode": "r") or also stores into ("rw"): {"attr": dotted text of the attribute,
+        # "param": name of the Lean parameter that carries the dict, "type": its type, "elem": type of its values, "mode"}.
+        # A "rw" function returns the pair (result, final dict).
+        self.dstate = d.get("state")
         # filled by translation
         self.node: ast.FunctionDef | None = None
         self.kind = None  # 'method' | 'class' | 'static' | 'property' | 'function'
@@ -805,6 +924,14 @@ class FnTranslator:
         for p, _ in t.params:
             if p not in pyparams:
                 self.bad(node, f"target declares parameter {p} which {t.function} does not have")
+        if t.dstate:
+            sp = t.dstate["param"]
+            if sp in self.local_names or sp in pyparams:
+                self.bad(node, f"state parameter {sp} clashes with a local name")
+            if t.dstate.get("mode") not in ("r", "rw"):
+                self.bad(node, "state mode must be r or rw")
+            ctx.vars[sp] = parse_type(t.dstate["type"])
+            self.local_names.add(sp)
         if t.function == "__init__":
             # `__init__` initialises the receiver: translated as the construction of the structure
             sty = self.own_struct()
@@ -820,7 +947,7 @@ class FnTranslator:
     def ir_raises(self, ir) -> bool:
         for n in ir:
             k = n[0]
-            if k in ("raise", "bind", "tail"):
+            if k in ("raise", "bind", "tail", "optret"):
                 return True  # (a loop call is a "bind": running out of fuel is an error value)
             if k == "if" and (self.ir_raises(n[2]) or self.ir_raises(n[3])):
                 return True
@@ -900,6 +1027,16 @@ class FnTranslator:
             if isinstance(st, ast.Raise):
                 out.append(("raise", self.exc_of(st)))
                 return out
+            nr = self.noreturn_helper(st)
+            if nr is not None:
+                # a helper that always raises (its arguments only feed the message): the path ends here
+                for a in list(st.value.args) + [k.value for k in st.value.keywords]:
+                    if any(isinstance(n, ast.Call) for n in ast.walk(a)):
+                        self.bad(st, "call inside the arguments of a helper that always raises")
+                if nr not in EXC_MAP.values():
+                    self.bad(st, f"noreturn helper with unknown exception {nr}")
+                out.append(("raise", nr))
+                return out
             if isinstance(st, ast.If) and isinstance(st.test, ast.BoolOp) and self.needs_statement_form(st.test, ctx):
                 # a raising call in a later operand of the test:
                 #   `if A and B: X else: Y`  ==  `if A: (if B: X else: Y) else: Y`
@@ -933,6 +1070,10 @@ class FnTranslator:
                 b2 = self.block(list(st.orelse) + rest, c2)
                 out.append(("if", cond, b1, b2))
                 return out
+            if isinstance(st, ast.Match):
+                stmts = [self.match_as_if(st, ctx)] + rest
+                i = 0
+                continue
             if isinstance(st, _LoopContinue):
                 out.extend(self.loop_continue(st, ctx))
                 return out
@@ -941,7 +1082,14 @@ class FnTranslator:
                 i = 0
                 continue
             if isinstance(st, ast.While):
-                out.extend(self.do_while(st, ctx))
+                wir = self.do_while(st, ctx)
+                if wir and wir[-1][0] == "early":
+                    # the loop body can return: `match early with | some v => return v | none => <the rest>`
+                    ev = wir[-1][1]
+                    out.extend(wir[:-1])
+                    out.append(("optret", ev, self.block(rest, ctx)))
+                    return out
+                out.extend(wir)
                 i += 1
                 continue
             if isinstance(st, (ast.Assign, ast.AnnAssign, ast.AugAssign)):
@@ -968,11 +1116,21 @@ class FnTranslator:
             self.bad(st, "statement While (the target declares no loop_fuel)")
         if st.orelse:
             self.bad(st, "while/else")
+        if t.dstate:
+            self.bad(st, "loop in a function that carries a dict attribute")
         if getattr(self, "in_loop", False):
             self.bad(st, "nested while loop")
+        early = False
         for n in ast.walk(st):
-            if isinstance(n, (ast.Return, ast.Break, ast.Continue, ast.While, ast.For)) and n is not st:
+            if isinstance(n, ast.Return):
+                early = True  # the loop function then also reports whether (and what) the body returned
+                continue
+            if isinstance(n, (ast.Break, ast.Continue, ast.While, ast.For)) and n is not st:
                 self.bad(n, f"{type(n).__name__} inside a while loop")
+            if isinstance(n, ast.Lambda) and early:
+                self.bad(n, "lambda inside a loop with a return")
+        if early and (t.lambda_params or t.dstate):
+            self.bad(st, "return inside a loop of a lambda factory / dict-carrying function")
         carried = []
         for n in ast.walk(ast.Module(body=st.body, type_ignores=[])):
             if isinstance(n, ast.Name) and isinstance(n.ctx, ast.Store) and n.id not in carried:
@@ -998,7 +1156,7 @@ class FnTranslator:
                     and ctx.vars[n.id] not in ("None", "Erased", "Str") and n.id not in ctx.defaults:
                 read.append(n.id)
         self.loop_count = getattr(self, "loop_count", 0) + 1
-        lp = {"index": self.loop_count, "name": f"{t.lean_name}.loop{self.loop_count}", "line": st.lineno,
+        lp = {"index": self.loop_count, "name": f"{t.lean_name}.loop{self.loop_count}", "line": st.lineno, "early": early,
               "free": [(v, ctx.vars[v]) for v in read], "carried": [(v, ctx.vars[v]) for v in carried]}
         lp["type"] = lp["carried"][0][1] if len(carried) == 1 else tuple(ty for _, ty in lp["carried"])
         # the loop function: if cond then body; recurse else return the carried variables
@@ -1012,14 +1170,58 @@ class FnTranslator:
             self.in_loop = False
         tup = lname(carried[0]) if len(carried) == 1 else "(" + ", ".join(lname(v) for v in carried) + ")"
         cty = lp["carried"][0][1] if len(carried) == 1 else tuple(ty for _, ty in lp["carried"])
-        lp["ir"] = pre + [("if", cond, body, [("ret", tup, cty)])]
+        lp["ir"] = pre + [("if", cond, body, [("ret", f"(none, {tup})" if early else tup, cty)])]
         lp["type"] = cty
         t.loops.append(lp)
         call = " ".join([self.ref(lp["name"])] + [n for n, _, _, _ in t.fun_params] + [lname(n) for n, _ in t.extra_params]
                         + [lname(v) for v in read] + [str(t.loop_fuel)] + [lname(v) for v in carried])
         for v, ty in lp["carried"]:
             ctx.bind(v, ty)
+        if early:
+            ev = f"early'{lp['index']}"
+            return [("bind", f"({ev}, {tup})", call, cty), ("early", ev)]
         return [("bind", tup, call, cty)]
+
+    def match_as_if(self, st: ast.Match, ctx: Ctx):
+        """`match subject:` over integer literal patterns (`case 1:`, `case 2 | 4 | 6:`, `case _:`) is the chain
+        `if subject == 1: … elif subject == 2 or subject == 4 or subject == 6: … else: …` (no case matching = fall
+        through).  The subject must be a name / attribute chain (evaluated once, without effect)."""
+        if not self.is_pure_simple(st.subject) or isinstance(st.subject, ast.Constant):
+            self.bad(st, "match on a subject that is not a simple name/attribute")
+        def lits(pat):
+            if isinstance(pat, ast.MatchValue) and isinstance(pat.value, ast.Constant) and isinstance(pat.value.value, int) and not isinstance(pat.value.value, bool):
+                return [pat.value]
+            if isinstance(pat, ast.MatchValue) and isinstance(pat.value, ast.UnaryOp) and isinstance(pat.value.op, ast.USub) and isinstance(pat.value.operand, ast.Constant) \
+                    and isinstance(pat.value.operand.value, int):
+                return [pat.value]
+            if isinstance(pat, ast.MatchOr):
+                r = []
+                for q in pat.patterns:
+                    r += lits(q)
+                return r
+            self.bad(pat, f"match pattern {type(pat).__name__} (only integer literals, `|` of them and `_`)")
+        chain = []   # [(test or None, body)]
+        for k, case in enumerate(st.cases):
+            if case.guard is not None:
+                self.bad(case.pattern, "match case with a guard")
+            if isinstance(case.pattern, ast.MatchAs) and case.pattern.pattern is None and case.pattern.name is None:
+                if k != len(st.cases) - 1:
+                    self.bad(case.pattern, "wildcard case that is not the last one")
+                chain.append((None, case.body))
+                continue
+            tests = [ast.copy_location(ast.Compare(left=st.subject, ops=[ast.Eq()], comparators=[v]), case.pattern) for v in lits(case.pattern)]
+            test = tests[0] if len(tests) == 1 else ast.copy_location(ast.BoolOp(op=ast.Or(), values=tests), case.pattern)
+            chain.append((test, case.body))
+        node = None
+        for test, body in reversed(chain):
+            if test is None:
+                node = list(body)
+            else:
+                node = [ast.copy_location(ast.If(test=test, body=list(body), orelse=node if node is not None else []), st)]
+        if node is None or not isinstance(node[0], ast.If):
+            # only a wildcard: its body runs unconditionally
+            return ast.copy_location(ast.If(test=ast.copy_location(ast.Constant(value=True), st), body=node or [ast.Pass()], orelse=[]), st)
+        return node[0]
 
     def for_as_while(self, st: ast.For, ctx: Ctx) -> list:
         """`for i in range([lo,] hi): body`  ==  `i = lo; hi' = hi; while i < hi': body; i += 1`
@@ -1104,6 +1306,34 @@ class FnTranslator:
         return EXC_MAP[name]
 
     def do_return(self, st: ast.Return, ctx: Ctx) -> list:
+        ir = self.do_return_plain(st, ctx)
+        t = self.t
+        if getattr(self, "in_loop", False):
+            # a return inside a loop body: the loop function stops and reports the value
+            lp = self.cur_loop
+            names = [lname(v) for v, _ in lp["carried"]]
+            tup = names[0] if len(names) == 1 else "(" + ", ".join(names) + ")"
+            last = ir[-1]
+            if last[0] == "ret":
+                return ir[:-1] + [("ret", f"(some {self.paren(last[1])}, {tup})", lp["type"])]
+            if last[0] == "tail":
+                tv = self.fresh("r")
+                return ir[:-1] + [("bind", tv, last[1], last[2]), ("ret", f"(some {tv}, {tup})", lp["type"])]
+            return ir
+        if t.dstate and t.dstate["mode"] == "rw" and not getattr(self, "in_lambda", False):
+            # the function also returns the dict it may have stored into
+            sp = lname(t.dstate["param"])
+            last = ir[-1]
+            if last[0] == "ret":
+                ir = ir[:-1] + [("ret", f"({last[1]}, {sp})", (last[2], "state"))]
+            elif last[0] == "tail":
+                tv = self.fresh("r")
+                ir = ir[:-1] + [("bind", tv, last[1], last[2]), ("ret", f"({tv}, {sp})", (last[2], "state"))]
+            elif last[0] != "raise":
+                self.bad(st, "return form not supported in a function with a stored-into dict")
+        return ir
+
+    def do_return_plain(self, st: ast.Return, ctx: Ctx) -> list:
         t = self.t
         if st.value is None or (isinstance(st.value, ast.Constant) and st.value.value is None):
             if getattr(self, "init_object", None) is not None:
@@ -1182,6 +1412,15 @@ class FnTranslator:
 
     def field_var(self, obj: str, field: str) -> str:
         return f"{obj}'{field}"
+
+    def noreturn_helper(self, st):
+        """`helper(...)` as a statement where the target list says the helper always raises -> the exception name"""
+        v = getattr(st, "value", None)
+        if isinstance(st, ast.Expr) and isinstance(v, ast.Call):
+            h = self.g.helpers.get(ast.unparse(v.func))
+            if h and h.get("noreturn"):
+                return h["noreturn"]
+        return None
 
     def do_expr_stmt(self, st: ast.Expr, ctx: Ctx) -> list:
         v = st.value
@@ -1262,6 +1501,18 @@ class FnTranslator:
                 ctx.fields[(obj, field)] = ty
                 return pre + [("bind" if kind == "raising" else "let", self.field_var(obj, field), txt, ty)]
             self.bad(st, f"assignment to attribute {ast.unparse(target)}")
+        st_ = self.t.dstate
+        if isinstance(target, ast.Subscript) and st_ and ast.unparse(target.value) == st_["attr"] and not isinstance(st, ast.AugAssign):
+            if st_["mode"] != "rw":
+                self.bad(st, "store into a dict the target declares read-only")
+            if getattr(self, "in_loop", False):
+                self.bad(st, "dict store inside a loop")
+            idx, ity = self.expr(target.slice, ctx, pre)
+            val, vty = self.expr(value, ctx, pre)
+            if ity != "Int" or vty != parse_type(st_["elem"]):
+                self.bad(st, f"dict store of a {vty} under a key of type {ity}")
+            sp = lname(st_["param"])
+            return pre + [("let", sp, f"Pyoda.Gen.PyDict.set {sp} {self.paren(idx)} {self.paren(val)}", parse_type(st_["type"]))]
         if not isinstance(target, ast.Name):
             self.bad(st, f"assignment target {type(target).__name__}")
         if target.id in ctx.constructing:
@@ -1348,6 +1599,8 @@ class FnTranslator:
                     self.bad(e, "`is None` test of an expression whose type is not declared")
                 isnone = ty == "None"
                 return isnone if isinstance(e.ops[0], ast.Is) else not isnone
+            if self.enum_identity(l, r):
+                return None  # decided at run time: identity of enum members is equality of their values
             self.bad(e, "`is` comparison")
         if isinstance(e, ast.UnaryOp) and isinstance(e.op, ast.Not):
             s = self.static(e.operand, ctx)
@@ -1371,6 +1624,26 @@ class FnTranslator:
                 if all(v is False for v in vals):
                     return False
         return None
+
+    def enum_identity(self, l, r) -> bool:
+        """`x is Cls.MEMBER` where the target declares x (a parameter, or a self attribute mapped to one) as always
+        holding a member of an Enum class and Cls is an Enum class: members are singletons, so identity is equality."""
+        members = set(self.t.d.get("enum_members", []))
+        def declared(x):
+            if isinstance(x, ast.Name):
+                return x.id in members
+            if isinstance(x, ast.Attribute) and isinstance(x.value, ast.Name) and x.value.id in ("self", "cls"):
+                v = self.t.self_attrs.get(x.attr)
+                return isinstance(v, str) and v.startswith("param:") and v[6:] in members
+            return False
+        def enum_const(x):
+            if not (isinstance(x, ast.Attribute) and isinstance(x.value, ast.Name)):
+                return False
+            g = self.src.lookup_global(self.file, x.value.id, self.local_imports)
+            if not g or g[0] != "class":
+                return False
+            return any(ast.unparse(b).split(".")[-1] in ("Enum", "IntEnum", "IntFlag", "Flag") for b in g[2].bases)
+        return (declared(l) and enum_const(r)) or (declared(r) and enum_const(l))
 
     def type_of_simple(self, e, ctx: Ctx):
         if isinstance(e, ast.Name):
@@ -1413,7 +1686,7 @@ class FnTranslator:
             v = self.g.ce.eval(e, self.cls_rel if self.uses_cls(e) else self.file, self.cls_node, self.local_imports)
         except (ValueError, RecursionError, ZeroDivisionError):
             return None
-        if isinstance(v, list):
+        if isinstance(v, (list, str, dict)):
             return None
         return v
 
@@ -1536,6 +1809,17 @@ class FnTranslator:
 
     def subscript(self, e: ast.Subscript, ctx, pre, cond):
         """constant int table indexed by an int expression -> bounds-checked lookup (raises IndexError)."""
+        st_ = self.t.dstate
+        if st_ and ast.unparse(e.value) == st_["attr"]:
+            # a lookup in the dict attribute carried as a parameter: KeyError for a missing key
+            if cond:
+                self.bad(e, "dict lookup in a conditionally evaluated position")
+            idx, ty = self.expr(e.slice, ctx, pre, cond)
+            if ty != "Int":
+                self.bad(e, "dict key that is not an int")
+            tv = self.fresh("e")
+            pre.append(("bind", tv, f"Pyoda.Gen.PyDict.get {lname(st_['param'])} {self.paren(idx)}", parse_type(st_["elem"])))
+            return tv, parse_type(st_["elem"])
         tbl = None
         self.g.ce.private_owner = (self.file, self.t.cls_node) if getattr(self.t, "cls_node", None) is not None else None
         try:
@@ -1553,7 +1837,8 @@ class FnTranslator:
             self.bad(e, "table index that is not an int")
         self.t.consts[ast.unparse(e.value)] = tbl
         tv = self.fresh("e")
-        pre.append(("bind", tv, f"Pyoda.Gen.pyIndex [{', '.join(str(x) for x in tbl)}] {idx}", "Int"))
+        fn = "Pyoda.Gen.pyDictIndex" if isinstance(tbl, DictTable) else "Pyoda.Gen.pyIndex"
+        pre.append(("bind", tv, f"{fn} [{', '.join(str(x) for x in tbl)}] {idx}", "Int"))
         return tv, "Int"
 
     def table_is_mutated(self, attr: str) -> bool:
@@ -1582,6 +1867,11 @@ class FnTranslator:
         if isinstance(base, ast.Name) and base.id in ctx.constructing:
             sty = ctx.constructing[base.id]
             field = g.types[sty].get("attrs", {}).get(e.attr)
+            if field is None:
+                v = self.const_of(e, ctx)  # a class-level constant read through the new object
+                if v is not None:
+                    self.record_const(e, v)
+                    return self.lit(v), ("Bool" if isinstance(v, bool) else "Int")
             if field is None or (base.id, field) not in ctx.fields:
                 self.bad(e, f"read of unassigned/unknown field {e.attr} of the object under construction")
             return self.field_var(base.id, field), ctx.fields[(base.id, field)]
@@ -1730,10 +2020,25 @@ class FnTranslator:
         operands = [e.left] + list(e.comparators)
         vals = []
         for i, x in enumerate(operands):
+            if i >= 1 and isinstance(e.ops[i - 1], (ast.In, ast.NotIn)) and isinstance(x, (ast.Tuple, ast.List)):
+                vals.append((None, None))  # a literal collection on the right of `in`: handled element-wise below
+                continue
             vals.append(self.expr(x, ctx, pre, cond or i >= 2))
         parts = []
         for i, op in enumerate(e.ops):
             (a, ta), (b, tb) = vals[i], vals[i + 1]
+            if isinstance(op, (ast.In, ast.NotIn)) and b is None:
+                # `a in (x, y, z)`: equality with one of the elements (all ints; a evaluated once: it is a text here)
+                elts = operands[i + 1].elts
+                alts = []
+                for x in elts:
+                    xt, xty = self.expr(x, ctx, pre, True)
+                    if xty != "Int" or ta != "Int":
+                        self.bad(e, "`in` over a tuple of non-ints")
+                    alts.append(f"{a} = {xt}")
+                txt = "(" + " ∨ ".join(alts) + ")" if alts else "False"
+                parts.append(f"¬ {txt}" if isinstance(op, ast.NotIn) else txt)
+                continue
             if isinstance(op, (ast.In, ast.NotIn)):
                 # `a in b`  ==  `b.__contains__(a)` (bool result); both operands are already evaluated, left first
                 if tb not in self.g.types:
@@ -1772,6 +2077,8 @@ class FnTranslator:
             if ta != tb or ta not in ("Int", "Bool"):
                 self.bad(e, f"comparison of {ta} with {tb}")
             sym = {ast.Eq: "=", ast.NotEq: "≠", ast.Lt: "<", ast.LtE: "≤", ast.Gt: ">", ast.GtE: "≥"}.get(type(op))
+            if isinstance(op, (ast.Is, ast.IsNot)) and ta == "Int" and self.enum_identity(operands[i], operands[i + 1]):
+                sym = "=" if isinstance(op, ast.Is) else "≠"
             if sym is None or (ta == "Bool" and sym not in ("=", "≠")):
                 self.bad(e, f"comparison {type(op).__name__} on {ta}")
             parts.append(f"{a} {sym} {b}")
@@ -1896,6 +2203,14 @@ class FnTranslator:
             elif isinstance(base, ast.Name) and base.id == "self" and ctx.vars.get("self") == "Erased":
                 clsname = self.cls_node.name if self.cls_node is not None else None
                 recv = "erased"
+            elif isinstance(base, ast.Name) and base.id in ctx.constructing and base.id == self.receiver:
+                # a classmethod / staticmethod called through the object being initialised
+                clsname = self.cls_node.name if self.cls_node is not None else None
+                tgc = self.find_targets(clsname, f.attr) if clsname else None
+                for c_ in tgc or []:
+                    self.g.ensure(c_)
+                if not tgc or any(c_.state == "done" and c_.kind not in ("class", "static") for c_ in tgc):
+                    self.bad(e, f"call of {dotted} through the object under construction (only class/static methods)")
             elif isinstance(base, ast.Name) and base.id not in ctx.vars and base.id not in ctx.constructing:
                 r = g.src.lookup_global(self.file, base.id, self.local_imports)
                 if r and r[0] == "class":
@@ -2142,6 +2457,13 @@ class FnTranslator:
             if (n, ty) not in self.t.extra_params:
                 self.bad(e, f"{c.lean_name} needs the instance attribute parameter {n}, which {self.t.lean_name} does not have")
             fargs.append(lname(n))
+        if c.dstate:
+            mine = self.t.dstate
+            if not mine or mine["attr"] != c.dstate["attr"] or mine["type"] != c.dstate["type"]:
+                self.bad(e, f"{c.lean_name} reads the dict {c.dstate['attr']}, which {self.t.lean_name} does not carry")
+            if c.dstate["mode"] == "rw":
+                self.bad(e, f"call of {c.lean_name}, which stores into {c.dstate['attr']} (threading a stored-into dict through a call is not supported)")
+            fargs.append(lname(mine["param"]))
         txt = " ".join([self.ref(c.lean_name)] + fargs + [self.paren(x) for x in out])
         if not c.raises:
             if not hasattr(self, "pure_translated_calls"):
@@ -2175,6 +2497,8 @@ class Emitter:
             spec.append("calls bound: " + ", ".join(f"{k} = {v}" for k, v in sorted(t.binds.items())))
         if t.fun_params:
             spec.append("abstract callees: " + ", ".join(f"{n} = {d}" for n, _, _, d in t.fun_params))
+        if t.dstate:
+            spec.append(f"dict attribute {t.dstate['attr']} = parameter {t.dstate['param']} ({'read and stored into; returned with the result' if t.dstate['mode'] == 'rw' else 'read only'})")
         doc = [f"/-- `{where}`" + (f" ({'; '.join(spec)})" if spec else "")]
         consts = {k: v for k, v in t.consts.items() if not isinstance(v, list)}
         if consts:
@@ -2182,8 +2506,12 @@ class Emitter:
         doc[-1] += " -/"
         fps = self.fun_param_sig()
         eps = " ".join(f"({lname(n)} : {self.g.lean_type(ty)})" for n, ty in t.extra_params)
+        if t.dstate:
+            eps = (eps + " " if eps else "") + f"({lname(t.dstate['param'])} : {self.g.lean_type(parse_type(t.dstate['type']))})"
         params = (fps + " " if fps else "") + (eps + " " if eps else "") + " ".join(f"({lname(n)} : {self.g.lean_type(ty)})" for n, ty in t.lean_params())
         rty = self.g.lean_type(t.ret)
+        if t.dstate and t.dstate["mode"] == "rw":
+            rty = f"({rty} × {self.g.lean_type(parse_type(t.dstate['type']))})"
         if t.raises:
             head = f"def {t.lean_name} {params} : R {rty} := do".replace("  ", " ")
         else:
@@ -2208,6 +2536,8 @@ class Emitter:
             head = " ".join(x for x in [f"def {lp['name']}", fps, eps, frees] if x)
             cty = [self.g.lean_type(ty) for _, ty in lp["carried"]]
             rty = cty[0] if len(cty) == 1 else "(" + " × ".join(cty) + ")"
+            if lp.get("early"):  # (what the body returned, if it did) × (the loop variables)
+                rty = f"(Option {self.g.lean_type(t.ret)} × {rty})"
             out.append(f"/-- loop {lp['index']} of `{t.file}: {(t.cls + '.') if t.cls else ''}{t.function}`: `while` as recursion on the fuel;")
             out.append("    out of fuel = outside the modelled domain (`decimalDomain`, reply `!dom`) -/")
             out.append(f"{head} : Nat → {' → '.join(cty)} → R {rty}")
@@ -2241,6 +2571,11 @@ class Emitter:
                     out.append(f"{pad}else")
                     out += self.block(cur[3], ind + 1, monadic)
                     break
+            elif k == "optret":
+                out.append(f"{pad}match {n[1]} with")
+                out.append(f"{pad}| some v' => .ok v'")
+                out.append(f"{pad}| none =>")
+                out += self.block(n[2], ind + 1, monadic)
             elif k == "ret":
                 out.append(f"{pad}.ok {self.paren(n[1])}" if monadic else f"{pad}{n[1]}")
             elif k == "tail":
